@@ -188,6 +188,17 @@ def props_check(cid):
     return res
 
 
+def coqchk(cid):
+    """independent re-check of Props/<cid>.vo and everything it depends on; returns dict(ok, axioms, seconds)"""
+    rc, out, err, dt = run(["coqchk", "-silent", "-o", "-Q", ".", "NV", "NV.Props.%s" % cid], cwd=COQ, timeout=3000)
+    text = out + err
+    m = re.search(r"\* Axioms:(.*?)\n\s*\n\* Constants/Inductives relying on type-in-type:(.*?)\n\s*\n\* Constants/Inductives relying on unsafe \(co\)fixpoints:(.*?)\n\s*\n\* Inductives whose positivity is assumed:(.*?)\n", text, re.S)
+    if rc != 0 or not m:
+        return {"ok": False, "rc": rc, "tail": text[-400:], "seconds": round(dt)}
+    fields = [" ".join(x.split()) for x in m.groups()]
+    return {"ok": all(f == "<none>" for f in fields), "axioms": fields[0], "type_in_type": fields[1], "unsafe_fix": fields[2], "positivity": fields[3], "seconds": round(dt)}
+
+
 def build_ocaml():
     # everything Extract.v requires must be compiled against the current Gen files first
     src = open(os.path.join(COQ, "Extract", "Extract.v")).read()
